@@ -7,6 +7,28 @@ VERIF = os.path.dirname(os.path.dirname(os.path.abspath(__file__)))
 props = [json.loads(l) for l in open(os.path.join(VERIF, "properties.jsonl"))]
 
 CLAIMED = {
+    "C19": dict(
+        category="proof",
+        text="Closed theorems about _get_leading_terms and its two helpers as regenerated from analysis.py on every run: for the "
+             "exponent tuples of a one-variable polynomial listed highest power first, exactly the leading power is returned (lower "
+             "powers never appear, the leading one is never dropped), a constant gives x^0; in any order the first listed term is "
+             "kept. The stream runs the real BigO on every support pattern of degree 0..6 with numeric and symbolic coefficients.",
+        design_ref="DESIGN.md section 5 C19",
+        note="Trusted: Coq kernel; translator (three small function shapes, fail-closed); sympy Poly.terms() lists the highest power first "
+             "(exercised by the stream: the exponent tuples sympy returns are fed to the generated function inside Coq).",
+        technique="Coq proof over translator-generated functions + exhaustive support-pattern differential check",
+    ),
+    "C20": dict(
+        category="proof",
+        text="Closed theorems, for every carrier with a total order, every cost function, step size, momentum and budget: a returned "
+             "history lies within the bounds, starts at the starting point and ends at the returned optimum, the optimum lies within "
+             "the bounds, the reported cost is the cost function at the optimum; an out-of-bounds start and running out of iterations "
+             "are errors, never values. The model is compared BIT-EXACTLY (binary64) with the real Optimizer.gradient_descent on "
+             "four families of float cost functions; the minimize() wrapper is checked against the theorems' conclusions.",
+        design_ref="DESIGN.md section 5 C20",
+        note="Trusted: Coq kernel and its primitive floats (vm_compute); hypotheses exclude NaN from the cost function.",
+        technique="Coq invariant proof over an abstract ordered carrier + bit-exact float correspondence",
+    ),
     "C15": dict(
         category="proof",
         text="Closed theorems: the expansion order of the aggregation dictionary is a complete topological listing of its keys "
